@@ -50,11 +50,21 @@ def simfile_text(rng, fmt, codec):
     parts.append("#BPMS:0.000=120.000;\n")
     if rng.random() < 0.3:
         parts.append("#SUBTITLE;\n")
-    if rng.random() < 0.5:
+    for _ in range(rng.choice([0, 1, 1, 2, 3])):
         if fmt == "ssc":
-            parts.append("#NOTEDATA:;\n#STEPSTYPE:dance-single;\n#CREDIT:%s;\n#NOTES:\n0000\n0000\n;\n" % rand_str(rng, codec))
+            shape = rng.choice(["notes", "notes", "notes2", "both", "extra"])
+            head = "#NOTEDATA:;\n#STEPSTYPE:dance-single;\n#CREDIT:%s;\n" % rand_str(rng, codec)
+            if shape == "notes":
+                parts.append(head + "#NOTES:\n0000\n0000\n;\n")
+            elif shape == "notes2":          # the alias StepMania writes for keysounded charts
+                parts.append(head + "#NOTES2:\n0000\n1000\n;\n")
+            elif shape == "both":
+                parts.append(head + "#NOTES2:\n0010\n;\n#NOTES:\n0000\n0100\n;\n")
+            else:
+                parts.append(head + "#DISPLAYBPM:90.000:180.000;\n#METER:%d;\n#NOTES:\n0000\n;\n" % rng.randrange(1, 20))     # charts end with their note data (C02 moves it there)
         else:
-            parts.append("#NOTES:dance-single:%s:Easy:1:0,0:\n0000\n0000\n;\n" % rand_str(rng, codec))
+            extra = rng.choice(["", "", ":extra component", ":a:b"])
+            parts.append("#NOTES:dance-single:%s:Easy:%d:0,0:\n0000\n0000\n%s;\n" % (rand_str(rng, codec), rng.randrange(1, 20), extra))
     if rng.random() < 0.3:
         parts.insert(rng.randrange(len(parts)), "// a comment\n")         # not in the library's canonical layout
     return "".join(parts)
